@@ -285,6 +285,8 @@ func fixedFilters() []filterClass {
 		{"wildcard-true-exact-false", map[string]bool{wcCreated: true, evCopy: false, wcRemoved: true, evDeleteN: false, evDelete: true, wcTagging: true, evTagPut: false}},
 		{"wildcard-false-exact-true", map[string]bool{wcCreated: false, evMPU: true, evCopy: true, wcRemoved: false, evDeleteN: true, evDelete: false, wcTagging: false, evTagPut: true}},
 		{"all-false", map[string]bool{wcCreated: false, wcRemoved: false, wcTagging: false, evPut: false, evDelete: false}},
+		// a filter file that enables nothing: {} (an allow list without entries is not "no filter")
+		{"empty", map[string]bool{}},
 	}
 }
 
